@@ -198,6 +198,10 @@ def eval_case_(arg):
         if flag:
             cnt["feature-" + nm] += 1
     res["nontrivial"] = dupf or dups or unprop or muxn >= 2
+    if info.get("shuffled"):
+        cnt["feature-orders-shuffled"] += 1
+    if any(any(s.is_multiplexer for s in f.signals) and not f.signals[0].is_multiplexer for f in db.frames):
+        cnt["feature-multiplexer-not-first-signal"] += 1
     summary = dict(case=dict(base_seed=base_seed, idx=idx, rebuild="harness/c14_cases.build_case(base_seed, idx, canmatrix.canmatrix)"),
                    profile=info["profile"], frames=fields0 if len(json.dumps(fields0)) < 3000 else "(large; rebuild from case)",
                    features={k: v for k, v in info.items() if k not in ("features", "idx", "base_seed")})
@@ -413,7 +417,7 @@ def run(chk):
         for v in r["violations"]:
             violation(v["key"], v["what"], v.get("input"), v.get("expected"), v.get("observed"))
         ties += r["ties"]
-        if r["idx"] in (-1, -2, -4, 0, 2, 5):
+        if r["idx"] in (-1, -2, -5, 0, 2, 5):
             chk.sample(dict(idx=r["idx"], profile=r["info"]["profile"], corpus=r["info"].get("corpus"),
                             dup_names=r["info"].get("dup_names"), unpropagated=r["info"].get("unpropagated"),
                             bigmux_values=len(r["info"].get("bigmux", {}).get("values", [])), pairs=r["pairs"],
